@@ -247,6 +247,11 @@ func randomVars(t *tape.Tape, names []string) map[string]interface{} {
 }
 
 var c03Adversarial = []string{
+	// a fragment that includes itself more than once: two to the power of the
+	// depth limit steps unless the cycle is refused
+	"{ ...F } fragment F on Query { title ...F ...F }",
+	"{ ...A } fragment A on Query { ...B ...B } fragment B on Query { ...A title ...A }",
+	"{ keepers { ...K } } fragment K on Keeper { name friend { ...K } buddy: friend { ...K ...K } }",
 	// one GraphQL type in two Go shapes (value and pointer), method-backed fields
 	"{ label { title } labelAlso { title } }",
 	"{ labelAlso { title artist } label { title artist } }",
